@@ -104,3 +104,23 @@ Proof.
   split; [vm_compute; repeat constructor|]. split; [vm_compute; repeat constructor|].
   split; [vm_compute; discriminate|]. intros _. left. vm_compute. discriminate.
 Qed.
+
+(* The hypothesis [reflect_safe] cannot be dropped (known finding
+   reflection-without-handshake-digests): on a pair keyed with NO cleartext in either
+   direction both handshake digests are the zero block, and a stream still waiting for its
+   peer's first frame accepts its OWN first frame when it is handed back to it. *)
+Theorem C02_reflection_bare_refuted :
+  exists (B B' : stream) (f : frame) (d : bytes),
+    (exists B0, set_key new_stream (repeat x01 32) (repeat x09 16) = SOk B0 /\
+                send_frame B0 d EndFlagComplete = (B, SOk f)) /\
+    recv_frame_we B f = (B', SOk (d, EndFlagComplete)).
+Proof.
+  destruct (set_key new_stream (repeat x01 32) (repeat x09 16)) as [B0|] eqn:E0; [|discriminate].
+  destruct (send_frame B0 [x41; x42] EndFlagComplete) as [B [f|e]] eqn:E1.
+  2:{ vm_compute in E0. injection E0 as <-. vm_compute in E1. discriminate. }
+  destruct (recv_frame_we B f) as [B' r] eqn:E2.
+  exists B, B', f, [x41; x42]. split; [exists B0; split; [reflexivity|exact E1]|].
+  vm_compute in E0. injection E0 as <-. vm_compute in E1. injection E1 as <- <-.
+  vm_compute in E2. injection E2 as <- <-. vm_compute. reflexivity.
+Qed.
+Print Assumptions C02_reflection_bare_refuted.
